@@ -24,9 +24,11 @@ def run(ctx: Ctx) -> None:
     ctx.rule("R-WRITE-W4", "backup suffix is '.orig' when backups are on")
     ctx.rule("R-WRITE-W5", "atomic with-body is a single write without early exits / swallowed errors")
     ctx.rule("R-WRITE-W6", "strif.atomic_output_file: sibling temp, rename after yield on all normal paths, not in finally")
+    ctx.rule("R-WRITE-W8", "after formatting, every normal path of reformat_file writes the result (file or stdout)")
     ctx.rule("R-WRITE-W7", "errors precede writes (per file and per run)")
     ctx.rule("R-USAGE", "usage errors precede every write-capable call on all paths; main maps them to non-zero exits")
     ctx.run(write.check_write)
+    ctx.run(write.check_result_always_written)
     ctx.run(write.check_usage_errors)
     if ctx.tier == "thorough":
         ctx.run(write.check_strif_contract)
